@@ -145,6 +145,8 @@ def simulate(
         # work on a copy: the caller's state matrix and its options are left untouched
         # (copy() routes kvalue / tvalue to the attributes and the rest to the options)
         sm = init.copy(**options)
+        # batch shape of the sequence, as for an initial state given as an array
+        sm.arrays.broadcast(common.broadcast_shapes(sm.shape, shape, append=True))
 
     LOGGER.info(f"Initial state matrix: num. states: {sm.nstate}, shape: {sm.shape}")
 
@@ -172,8 +174,15 @@ def simulate(
     values = tuple(zip(*values))
 
     if asarray:
-        values = tuple(np.asarray(arr) for arr in values)
-        times = np.asarray(times)
+        # one array per measurement when its entries have a common shape (else: the list of entries)
+        def _stack(items):
+            items = [np.asarray(item) for item in items]
+            if len({item.shape for item in items}) > 1:
+                return items
+            return np.asarray(items)
+
+        values = tuple(_stack(arr) for arr in values)
+        times = _stack(times)
 
     if len(values) == 1:
         # flatten values if only a single acquisiion
